@@ -534,11 +534,25 @@ def sqrt_of(r: Rat) -> Rat:
     content, q, ks, prim = split_content(r)
     n, d = q.numerator, q.denominator
     outside = Rat.const(1)
-    if isqrt(n) ** 2 == n and isqrt(d) ** 2 == d and all(k % 2 == 0 for k in ks.values()):
-        outside = Rat.const(Fraction(isqrt(n), isqrt(d)))
-        for a, k in ks.items():
-            outside = outside * (Rat.atom(a) ** (k // 2))
-        r = prim
+    if all(k % 2 == 0 for k in ks.values()):
+        # sqrt(n/d) = s*sqrt(m)/d with n*d = s^2*m, m square-free: one canonical radicand per number
+        m, sq = n * d, 1
+        if m < 10 ** 12:
+            f = 2
+            while f * f <= m:
+                while m % (f * f) == 0:
+                    m //= f * f
+                    sq *= f
+                f += 1
+            outside = Rat.const(Fraction(sq, d))
+            for a, k in ks.items():
+                outside = outside * (Rat.atom(a) ** (k // 2))
+            r = prim * m
+        elif isqrt(n) ** 2 == n and isqrt(d) ** 2 == d:
+            outside = Rat.const(Fraction(isqrt(n), isqrt(d)))
+            for a, k in ks.items():
+                outside = outside * (Rat.atom(a) ** (k // 2))
+            r = prim
     if r.is_const():
         v = r.const_value()
         if v == 1:
